@@ -15,10 +15,18 @@ CHECKS = {
    technique="mutation monitor over YAML scalar positions with a located-diagnostic oracle on the real linter",
    text="Every scalar value position (mapping value or sequence element, any depth) of nine maximal clean templates and of every clean corpus file is replaced by malformed ${{ }} placeholders (four closed forms plus the unclosed one); the real linter must report at that scalar, and outside the four excepted classes with an expression syntax error. 129 position classes are required to be covered, sibling-configuration variants are explored. Complete over the position classes of the templates, sampled otherwise.",
    note="Trusted: the text-level scalar replacement (re-decoded and compared with the original tree for every mutant). A diagnostic one column past the scalar end counts as located at the scalar (EOF errors)."),
+ "C04": dict(level="exploration", design="§4 C04",
+   technique="reference-model monitor: regex tokenizer + declarative grammar table with a generic Earley recogniser + precedence-climbing tree builder vs. the real lexer/parser, over exhaustively enumerated token and character strings",
+   text="All strings over 23 token symbols up to length 4 (quick) / 5 and half of 6 (thorough), all strings over a 25-character lexical alphabet up to length 4 / 5, whitespace variants, all binary-operator chains with negations, random sentences with mutations, 148 number forms in 24 contexts and texts around the end marker are parsed by the real ExprLexer/ExprParser and compared on accept/reject, tree shape (precedence) and error offset; through Linter.Lint in five embeddings a rejected text must give exactly one expression diagnostic inside the placeholder. Exhaustive up to the stated length bounds.",
+   note="Forms where the statement is silent (number immediately followed by '.', hex with redundant leading zero, signed hex, doubles overflowing float64) are excluded. One open known finding (exponent with leading zero, pinned by an existing test)."),
  "C05": dict(level="exploration", design="§4 C05",
    technique="reference-model monitor: independent scoping model over a generated workflow model vs. the real linter's undefined-property diagnostics",
    text="A seeded generator builds workflows (jobs with needs DAG and outputs, steps with ids, matrices with include/exclude/nesting and expression-valued sections, workflow_call/dispatch inputs, secrets, outputs) and emits one reference per scalar at 47 kinds of position; an independent scope model decides in-scope / out-of-scope / never-reported per reference and is compared with the linter. Floors require every reference class in both directions.",
    note="Compared per scalar (reported or not); classes where the statement is silent are excluded and listed in the evidence assumptions."),
+ "C07": dict(level="exploration", design="§4 C07",
+   technique="position monitor: global bounds oracle + absolute position oracle from a position-recording emitter + metamorphic shift oracle (k columns / k lines) on the real linter",
+   text="Bounds: every diagnostic of the corpus, of 17 kinds of byte/line mutations of it and of all generated workflows has 1<=line<=lines and column>=1 (YAML-level errors excepted). Absolute: 5000 (quick) / 200000 (thorough) generated cases, each a clean workflow plus one diagnosed construct (55 expression sites in three modes, 44 key sites, 36 value sites, 15 glob character classes) under random layouts (indentation, nesting, flow/block, plain/single/double quoted, earlier placeholders, preceding text); the reported line:column must equal the recorded position. Shift: each case is re-emitted with k extra columns / lines / preceding text / an earlier placeholder and the whole diagnostic multiset must move by exactly k.",
+   note="Exactness only inside the statement's domain (one line, no escapes, ASCII). Three open known findings (quoted matrix values off by one; line beyond EOF for escaped newlines and for implicit null values)."),
  "C10": dict(level="exploration", design="§4 C10",
    technique="Go race detector over multi-file workloads + isolation (alone vs. together) metamorphic monitor with seeded hook delays + table/config fingerprint invariants + file-vs-AST interface comparison",
    text="Generated layouts (one repo, two repos, prefix-named siblings, nested repositories, loose files, many files) whose workflows depend on their own repository's config, local action and reusable workflow and produce diagnostics built from shared tables. Every file is linted alone, then together in subsets / argument orders under GOMAXPROCS 1/2/4/16 with seeded delays at hook points (check start, cache writes); per-file diagnostics must be equal. Built-in table and shared *Config fingerprints are compared before/after; a third of the cases run in the -race build and every report touching actionlint frames is a violation; both cache-write interleavings must have been observed. Exploration of schedules, not enumeration.",
@@ -39,6 +47,10 @@ CHECKS = {
    technique="reference-model monitor: interface model vs. the real linter over the complete bundled action data set and generated local callees on disk",
    text="All PopularActions and OutdatedPopularActionSpecs entries are enumerated completely (required inputs present/removed, undeclared inputs, letter case, declared/undeclared outputs); generated local actions and reusable workflows (required x default, typed inputs, secrets, inherit, outputs) are written to scratch repositories and called with random subsets/extras/typed values, in both metadata derivations (file and AST). Bundled part exhaustive, local part sampled.",
    note="Callees are asserted well-formed (lint clean alone). Classes outside the statement (boolean inputs, quoted literals, docker args/entrypoint keys) are excluded and listed in the evidence."),
+ "C15": dict(level="exploration", design="§4 C15",
+   technique="metamorphic monitor on the real CLI in child processes: baseline vs. filtered runs with an independent regexp/doublestar filter model, across working directories and path spellings",
+   text="200 (quick) / 5000 (thorough) scratch repositories with 2-7 workflows in nested directories; per project 6 filter sets (-ignore, config paths/ignore, both, everything, none, random) x 8 of 28 (cwd, spelling) pairs. Expected output = unfiltered list minus messages matched by Go regexp, a paths entry applying iff doublestar matches the root-relative path; compared as exact sequences after resolving printed paths; exit status 0/1; a second family checks status 3 (12 fatal classes) and 2 (flag errors).",
+   note="stdin input, several repositories in one run, -config-file combined with a repository config and invalid -format are outside the compared domain."),
  "C17": dict(level="exploration", design="§4 C17",
    technique="reference-model monitor plus reference-free invariants over exhaustively enumerated pattern strings on the real validators",
    text="All strings over a 16-symbol alphabet up to length 5 (quick, 1.1e6) / 6 (thorough) plus random strings up to 40 characters are validated by ValidateRefGlob/ValidatePathGlob and compared with an independent validator written from the cheat sheet and git-check-ref-format; on every string: ref-accept implies path-accept, columns inside the pattern, named character at the column; a Lint sample checks the mapping onto YAML scalars. Exhaustive up to the length bound.",
@@ -47,6 +59,10 @@ CHECKS = {
    technique="reference-model monitor over exhaustively enumerated needs graphs (runtime oracle on the real linter)",
    text="Every digraph on <=4 jobs is rendered to a workflow and linted by the real Linter; all 2^25 graphs on 5 jobs are pushed through the rule's visitor API in the thorough tier. An independent cyclicity decision and a walk validator over the generated edge relation judge every run; dangling and duplicate references and random graphs up to 40 jobs are sampled. Exhaustive up to the bound, sampled above it.",
    note="Trusted: the harness' own graph renderer and cyclicity reference (60 lines). Termination is observed as bounded progress: a case exceeding 90 s CPU when re-run alone is a hang."),
+ "C19": dict(level="exploration", design="§4 C19",
+   technique="reference-model + metamorphic permutation monitor on the real linter's matrix diagnostics",
+   text="Every ordered pair of 32 curated values as a row and as (candidate, filter), every ordered triple as (row value, include value, exclude filter) (32768 workflows, exhaustive), matrices made only of expressions, and 2000 (quick) / 100000 (thorough) random matrices with planted duplicates, near variants and every class of exclude entry, each written in 6 further permutations of values, keys and mapping members. Duplicates must be exactly the values structurally equal to an earlier one; exclude verdicts must follow subset/element-wise/equality matching; verdicts are invariant under permutation; expression-built rows and entries are never reported.",
+   note="One spelling per scalar; classes where the statement is silent (exclude values containing expressions, matrices without rows) are not compared."),
  "C20": dict(level="fault_enumeration", design="§4 C20",
    technique="trace monitor with fault enumeration: fake shellcheck/pyflakes tool with planned behaviours, tool-side log, hook event trace of the process pool, reference model of effective shell / sanitised stdin / expected diagnostics or fatal error; also under -race and NumCPU=2",
    text="Every assignment of 7 tool behaviours (ok, 1 issue, 3 issues, exit!=0 without output, killed, garbage, killed after partial output) to k<=4 invocations is enumerated (2800 patterns; all in thorough, a seeded sample in quick) on generated workflows whose shells come from step / job default / workflow default / runner. Checked per run: each eligible script reaches the right tool exactly once with the exact equally-long-placeholder stdin; issues become diagnostics at the run: key; failures become fatal errors; semaphore holders and live processes never exceed NumCPU (16 and, via taskset, 2); nothing of the pool runs after Lint* returned; every started run has ended.",
